@@ -53,6 +53,9 @@ func verifC19RoundTrip() {
 				h.ALPN = append(h.ALPN, a)
 			}
 		}
+		if i == 1 && vBool() {
+			h.Target = "svc.example" // a record served from another host: its addresses come from the Additional map
+		}
 		recs = append(recs, h)
 	}
 	aliasFirst := len(recs) > 0 && recs[0].Priority == 0
@@ -73,7 +76,11 @@ func verifC19RoundTrip() {
 				}
 			}
 		case 1:
-			m.Answer = append(m.Answer, dns.RR{Name: q.Name, Type: 1, Class: 1, TTL: 60, Data: net.IP{10, 0, 0, 9}})
+			ip := net.IP{10, 0, 0, 9}
+			if q.Name == "svc.example" {
+				ip = net.IP{10, 0, 1, 9} // the service target lives elsewhere
+			}
+			m.Answer = append(m.Answer, dns.RR{Name: q.Name, Type: 1, Class: 1, TTL: 60, Data: ip})
 		}
 		return m, nil
 	}
@@ -84,7 +91,10 @@ func verifC19RoundTrip() {
 
 	t := NewTransport()
 	t.Resolver = &Resolver{}
-	withTLSConfig := nrec < 3 && vBool() // (the largest record sets run with the default configuration only)
+	withTLSConfig := nrec == 1 // quick tier: tied to the record count; thorough: both ways (the largest record sets with the default only)
+	if vTier() > 0 {
+		withTLSConfig = nrec < 3 && vBool()
+	}
 	if withTLSConfig {
 		t.TLSConfig = &tls.Config{NextProtos: []string{"h2"}, MinVersion: tls.VersionTLS13}
 	}
@@ -212,9 +222,44 @@ func verifC19RoundTrip() {
 		if p := parsed.Port(); p != "" {
 			wantPort = p
 		}
+		// the exact attempts: one per compatible record in priority order, at the record's own
+		// target's address, with the record's own ECH list; duplicates of an address dropped;
+		// the plain address without ECH only when no record is usable
+		var wantAddr []string
+		var wantECH [][]byte
+		for _, h := range service {
+			compat := len(h.ALPN) == 0 || !h.NoDefaultALPN
+			for _, a := range h.ALPN {
+				if a == "h2" || a == "http/1.1" {
+					compat = true
+				}
+			}
+			if !compat {
+				continue
+			}
+			addr := "10.0.0.9:" + wantPort
+			if h.Target != "" {
+				addr = "10.0.1.9:" + wantPort
+			}
+			dup := false
+			for _, w := range wantAddr {
+				dup = dup || w == addr
+			}
+			if !dup {
+				wantAddr = append(wantAddr, addr)
+				wantECH = append(wantECH, h.ECH)
+			}
+		}
+		if len(wantAddr) == 0 {
+			wantAddr, wantECH = []string{"10.0.0.9:" + wantPort}, [][]byte{nil}
+		}
+		vAssert(len(dials) == len(wantAddr), "one attempt per usable record (per distinct address), or one plain attempt when there is none")
 		for i, d := range dials {
+			if i < len(wantAddr) {
+				vAssert(d.addr == wantAddr[i] && vBytesEq(dialedECH[i], wantECH[i]) && (dialedECH[i] == nil) == (wantECH[i] == nil), "attempts follow the usable records in priority order, each at its own target's address with its own ECH config list")
+			}
 			vAssert(dialedECH[i] != nil || nCompat == 0, "an attempt without ECH is made only when no usable HTTPS record exists")
-			vAssert(d.network == "tcp" && d.addr == "10.0.0.9:"+wantPort, "the resolved address is dialled on the URL's port (443 by default, also after the upgrade from http)")
+			vAssert(d.network == "tcp", "TCP is dialled")
 			vAssert(d.serverName == u.hostname, "the server is authenticated against the URL's host name")
 			// the dialled target must stem from a record compatible with h2 / http/1.1 (or be the plain address)
 			if dialedECH[i] != nil {
